@@ -264,3 +264,48 @@ func VerifC11_Immutability() {
 	vrt.Assert("C11.immut.record-noextra", !okz)
 	vrt.Assert("C11.immut.record-equal", r.Equal(NewRecord(RecordMap{"k": a.v})))
 }
+
+// VerifC11_NestedCollisions: containers nested in containers over the universe the
+// property names (values that collide in the internal hash: true / 1 / decimal
+// 0.0001 / 1 ms / datetime 1, neighbouring longs).  A set built from a sequence and
+// the set built from any re-ordering of it are one value: equal, same hash, and
+// indistinguishable as a record member, as a set member and as a nested set.
+func VerifC11_NestedCollisions() {
+	uni := []Value{True, Long(1), Decimal{value: 1}, Duration{value: 1}, Datetime{value: 1}, Long(2), Long(0), False, String("1")}
+	n := 2
+	if vrt.Thorough() {
+		n = 3
+	}
+	vrt.Bound("nested-collision-sequence-length", n)
+	seq := make([]Value, n)
+	for i := range seq {
+		seq[i] = uni[vrt.Choice("member", len(uni))]
+	}
+	// a re-ordering: rotate by k and optionally reverse
+	k := vrt.Choice("rotate", n)
+	rev := vrt.Choice("reverse", 2) == 1
+	perm := make([]Value, n)
+	for i := range perm {
+		j := (i + k) % n
+		if rev {
+			j = n - 1 - j
+		}
+		perm[i] = seq[j]
+	}
+	s1, s2 := NewSet(seq...), NewSet(perm...)
+	vrt.Cover("C11.nested.checked")
+	vrt.Assert("C11.nested.sets-equal", s1.Equal(s2) && s2.Equal(s1))
+	vrt.Assert("C11.nested.sets-hash", s1.hash() == s2.hash())
+	r1 := NewRecord(RecordMap{"k": s1, "n": Long(7)})
+	r2 := NewRecord(RecordMap{"n": Long(7), "k": s2})
+	vrt.Assert("C11.nested.records-equal", r1.Equal(r2) && r2.Equal(r1))
+	vrt.Assert("C11.nested.records-hash", r1.hash() == r2.hash())
+	vrt.Assert("C11.nested.record-in-set", NewSet(r1).Contains(r2) && NewSet(r1, r2).Len() == 1)
+	vrt.Assert("C11.nested.set-in-set", NewSet(s1).Contains(s2) && NewSet(s1, s2).Len() == 1 && NewSet(s1).Equal(NewSet(s2)))
+	rr1 := NewRecord(RecordMap{"r": r1})
+	rr2 := NewRecord(RecordMap{"r": r2})
+	vrt.Assert("C11.nested.record-in-record", rr1.Equal(rr2) && rr1.hash() == rr2.hash())
+	// and a record is not equal to one whose nested set differs by one member
+	other := NewSet(append(append([]Value{}, seq...), String("extra"))...)
+	vrt.Assert("C11.nested.distinguishes", !NewRecord(RecordMap{"k": other, "n": Long(7)}).Equal(r1))
+}
